@@ -26,7 +26,7 @@ the atomized operands (left operand outermost). -/
 theorem general_is_any (m : Mode) (op : Op) (L Rr : List Item) (hm : m.compat = false) :
     generalCmp m op L Rr =
       anyPairs (pairGeneral m op) (product (L.map (atomize m)) (Rr.map (atomize m))) := by
-  simp [generalCmp, hm]
+  simp [generalCmp, generalCmpWith, hm]
 
 /-- HEADLINE (soundness half): a general comparison is true only if some pair (a, b), a from the left
 and b from the right operand, satisfies the pair comparison. -/
@@ -155,6 +155,49 @@ theorem general_cmp_conforms_partial (m : Mode) (op : Op) (L Rr : List Item) (hm
     rcases hm with rfl | rfl <;> simp [generalAllowed, hat, hprod]
   rw [hga, hmap, general_is_any m op L Rr hcompat]
   exact anyPairs_in_allowed (pairGeneral m op) _ (fun p hp => (hps p hp).2.2.2.2.2.1)
+
+/-! ## the implicit timezone of the dynamic context; purity -/
+
+/-- CONTEXT.  Under a dynamic context with implicit timezone `itz` the code (which fills the timezone
+of timezone-less date/time operands pair by pair, on copies, just before the operator) computes what
+the context-free evaluator computes on the operands in which *every* timezone-less date/time value has
+been given the implicit timezone — the reading of XPath 3.1 §2.1.2.  Hence every theorem of this file
+about `generalCmp` / `valueCmp` transfers to any context (`general_cmp_conforms_ctx_partial`). -/
+theorem general_ctx_reduction (itz : Option Int) (m : Mode) (op : Op) (L Rr : List Item) (hm : m.compat = false) :
+    generalCmpCtx itz m op L Rr = generalCmp m op (L.map (withImplicitTz itz)) (Rr.map (withImplicitTz itz)) :=
+  generalCmpCtx_eq_filled itz m op L Rr hm
+
+theorem value_ctx_reduction (itz : Option Int) (m : Mode) (op : Op) (L Rr : List Item) :
+    valueCmpCtx itz m op L Rr = valueCmp m op (L.map (withImplicitTz itz)) (Rr.map (withImplicitTz itz)) :=
+  valueCmpCtx_eq_filled itz m op L Rr
+
+/-- without an implicit timezone the context evaluators are the plain ones -/
+theorem ctx_none (m : Mode) (op : Op) (L Rr : List Item) :
+    generalCmpCtx none m op L Rr = generalCmp m op L Rr ∧ valueCmpCtx none m op L Rr = valueCmp m op L Rr :=
+  ⟨generalCmpCtx_none m op L Rr, valueCmpCtx_none m op L Rr⟩
+
+/-- HEADLINE under a context, against the specification.  PARTIAL (same findings). -/
+theorem general_cmp_conforms_ctx_partial (itz : Option Int) (m : Mode) (op : Op) (L Rr : List Item)
+    (hm : m = .v2 ∨ m = .v31)
+    (hclean : ∀ x ∈ L.map (withImplicitTz itz), ∀ y ∈ Rr.map (withImplicitTz itz),
+      PairClean m op (atomize m x) (atomize m y)) :
+    ∃ allowed, generalAllowedCtx itz m op L Rr = some allowed ∧
+      outOfR (generalCmpCtx itz m op L Rr) ∈ allowed := by
+  have hcompat : m.compat = false := by rcases hm with rfl | rfl <;> rfl
+  rw [general_ctx_reduction itz m op L Rr hcompat]
+  exact general_cmp_conforms_partial m op _ _ hm hclean
+
+/-- the year-boundary history case: 2001-01-01T01:00:00 (no timezone) against
+2000-12-31T23:00:00-05:00 is `gt` without implicit timezone (01:00Z > 04:00Z is false … read as UTC it
+is earlier) and changes with the context: under -05:00 it is later, under +14:00 earlier — the model is
+a function of (context, values) only -/
+example :
+    let v : Item := .atom (.dtm ⟨63113907600, none⟩)           -- 2001-01-01T01:00:00
+    let w : Item := .atom (.dtm ⟨63113900400, some (-300)⟩)    -- 2000-12-31T23:00:00-05:00
+    valueCmpCtx none .v2 .lt [v] [w] = .ok (some true) ∧
+    valueCmpCtx (some (-300)) .v2 .lt [v] [w] = .ok (some false) ∧
+    valueCmpCtx (some 840) .v2 .lt [v] [w] = .ok (some true) ∧
+    generalCmpCtx (some (-300)) .v31 .gt [v] [w] = .ok true := by decide +kernel
 
 /-! ## XPath 1.0 parser against XPath 1.0 §3.4 -/
 
@@ -403,19 +446,19 @@ theorem value_seq_conforms_partial (m : Mode) (op : Op) (L Rr : List Item) (hm :
   have hcs : ∀ a : Atom, untypedToString a = castUAStr a := by
     intro a; cases a <;> rfl
   match L, Rr with
-  | [], [] => simp [valueAllowed, hm, valueCmp, atomizedOperand, outOfOR]
-  | [], [y] => simp only [valueCmp, hop]; simp [valueAllowed, hm, atomizedOperand, outOfOR]
-  | [], _ :: _ :: _ => simp [valueAllowed, hm, valueCmp, atomizedOperand, outOfOR]
-  | [x], [] => simp only [valueCmp, hop]; simp [valueAllowed, hm, atomizedOperand, outOfOR]
-  | [x], _ :: _ :: _ => simp only [valueCmp, hop]; simp [valueAllowed, hm, atomizedOperand, outOfOR]
-  | _ :: _ :: _, [] => simp [valueAllowed, hm, valueCmp, atomizedOperand, outOfOR]
-  | _ :: _ :: _, [y] => simp [valueAllowed, hm, valueCmp, atomizedOperand, outOfOR]
-  | _ :: _ :: _, _ :: _ :: _ => simp [valueAllowed, hm, valueCmp, atomizedOperand, outOfOR]
+  | [], [] => simp [valueAllowed, hm, valueCmp, valueCmpWith, atomizedOperand, outOfOR]
+  | [], [y] => simp only [valueCmp, valueCmpWith, hop]; simp [valueAllowed, hm, atomizedOperand, outOfOR]
+  | [], _ :: _ :: _ => simp [valueAllowed, hm, valueCmp, valueCmpWith, atomizedOperand, outOfOR]
+  | [x], [] => simp only [valueCmp, valueCmpWith, hop]; simp [valueAllowed, hm, atomizedOperand, outOfOR]
+  | [x], _ :: _ :: _ => simp only [valueCmp, valueCmpWith, hop]; simp [valueAllowed, hm, atomizedOperand, outOfOR]
+  | _ :: _ :: _, [] => simp [valueAllowed, hm, valueCmp, valueCmpWith, atomizedOperand, outOfOR]
+  | _ :: _ :: _, [y] => simp [valueAllowed, hm, valueCmp, valueCmpWith, atomizedOperand, outOfOR]
+  | _ :: _ :: _, _ :: _ :: _ => simp [valueAllowed, hm, valueCmp, valueCmpWith, atomizedOperand, outOfOR]
   | [x], [y] =>
     obtain ⟨h1, h2, h4, h5, h8, h9, h7⟩ := hpair x y rfl rfl
     have hc := valuePair_conforms m op _ _ (hcast (atomize m x)) (hcast (atomize m y)) h1 h2 h4 h5
       (dtConsistent_of_tzOK _ _ h8 h9)
-    simp only [valueAllowed, hm, valueCmp, hop, hat, hcs, hc, List.isEmpty_cons, List.length_cons,
+    simp only [valueAllowed, hm, valueCmp, valueCmpWith, hop, hat, hcs, hc, List.isEmpty_cons, List.length_cons,
       List.length_nil, Bool.or_self, Bool.false_eq_true]
     cases hv : valueOp (binOrdered m) op (castUAStr (atomize m x)) (castUAStr (atomize m y)) with
     | ok v => cases v <;> simp [outOfOR, Out.ofBool, Except.map]
